@@ -260,7 +260,21 @@ def run(prog, rep, tier):
                 continue
             # consumed by a combinator with a non-success default?
             cons = [x for x in body.calls() if x.term.args and x.term.args[0].place is not None and x.term.args[0].place[0] == d]
-            if len(cons) == 1 and cons[0].term.cmethod in ('map_or', 'map_or_else'):
+            if len(cons) == 1 and cons[0].term.cmethod == 'map_or_else':
+                # the Err outcome goes through the first function: a closure without any Success status, or a `From<..> for MLAStatus` conversion
+                # (none of which yields Success, checked below as R20.3|..|error-conversion-never-success)
+                a1 = cons[0].term.args[1]
+                e = expr_of(body, a1)
+                ok, how = False, 'the error function of map_or_else could not be resolved'
+                if e[0] == 'agg' and e[3].j.get('agg') == 'closure':
+                    cb = prog.body(body.pkg, e[3].j['closure'])
+                    ok = cb is not None and not success_blocks(cb)
+                    how = 'Err outcome mapped by a closure that never yields Success' if ok else 'the closure mapping the Err outcome can yield Success'
+                elif (e[0] == 'const' or a1.kind == 'const') and 'MLAStatus as std::convert::From<' in ((a1.k or {}).get('fn_args') or (a1.k or {}).get('txt') or ''):
+                    ok, how = True, 'Err outcome mapped by MLAStatus::from'
+                rep.ob('R20.3', ok, key, how, body.loc(b.idx))
+                continue
+            if len(cons) == 1 and cons[0].term.cmethod == 'map_or':
                 e = expr_of(body, cons[0].term.args[1])
                 ok = e[0] == 'agg' and e[3].j.get('adt') == 'MLAStatus' and e[3].j.get('variant') != 'Success'
                 rep.ob('R20.3', ok, key, 'Err outcome mapped to %s by map_or' % (e[3].j.get('variant') if e[0] == 'agg' else '?') if ok else 'map_or default status is Success', body.loc(b.idx))
@@ -271,6 +285,16 @@ def run(prog, rep, tier):
             rep.ob('R20.3', False, key, 'result of fallible call %s is not examined' % t.cargs, body.loc(b.idx))
         # Success requires at least one dominating check or no fallible call at all: (covered by the per-call rule)
     rep.floor('R20.3', n_res, 10, 'fallible calls in the C entry points')
+    # the conversions of an error into a status never produce Success
+    nconv = 0
+    for cv in prog.crates['mla-bindings-c'].bodies:
+        if cv.impl_trait == 'std::convert::From' and cv.name == 'from' and cv.kind != 'Closure' and cv.lty(0) == 'MLAStatus':
+            nconv += 1
+            rep.fn(cv)
+            bad = success_blocks(cv)
+            rep.ob('R20.3', not bad, 'R20.3|%s|error-conversion-never-success' % cv.nkey, 'no arm of the conversion yields Success' if not bad else
+                   'a conversion from an error to MLAStatus can yield Success (%s)' % cv.loc(bad[0][0]), cv.loc())
+    rep.floor('R20.3.conv', nconv, 1, '`From<..> for MLAStatus` conversions')
 
     # ---------------- R20.4 callback adapters
     adapters = [('CallbackOutput', 'write', 'std::io::Write'), ('CallbackOutput', 'flush', 'std::io::Write'),
